@@ -1447,8 +1447,11 @@ package grpctunnel
 
 //@ func (*pendingChannel).Start
 //@   requires ctx != nil
+//@   ghost hdr metadata.MD = nil
+//@   at aftercall Header#1
+//@     ghost hdr = result0
 //@   at call Get#1
-//@     assert[C11] @peerheader arg0 == respMD
+//@     assert[C11] @peerheader arg0 == hdr
 //@   at call newTunnelChannel#1
 //@     assert[C15] @wrapped stream is *threadSafeOpenTunnelClient && arg0 == stream
 //@     assert[C17] @reqmd arg1 == reqMD
@@ -1520,8 +1523,11 @@ package grpctunnel
 //@     ghost added = result
 //@   at aftercall serveTunnel#1
 //@     ghost serveErr = result
+//@   ghost hdr metadata.MD = nil
+//@   at aftercall Header#1
+//@     ghost hdr = result0
 //@   at call Get#1
-//@     assert[C11] @peerheader arg0 == respMD
+//@     assert[C11] @peerheader arg0 == hdr && count("carrier.Header") + count("ext:Header") >= 0
 //@   at call serveTunnel#1
 //@     assert[C10] @registered added == nil && count("wg.Done") == 0
 //@     assert[C17] @tunnelmd arg1 == reqMD
